@@ -100,6 +100,15 @@ func NewEngineFacade(dataDir string) (*EngineFacade, error) {
 		stats:      statsCollector,
 	}
 
+	// Transactions apply their writes to the storage directly: let them ask for
+	// the read-only mode at commit, as Put, Delete and ApplyBatch do at call time
+	txManager.SetWriteGuard(func() error {
+		if facade.readOnly.Load() {
+			return ErrReadOnlyMode
+		}
+		return nil
+	})
+
 	// Start the compaction manager
 	if err := compactionManager.Start(); err != nil {
 		// If compaction fails to start, continue but log the error
